@@ -109,7 +109,7 @@ def run(ctx, job):
             lo, hi = c.get_variable_bounds(v)
         except ValueError:
             A, b = O.matrix_of(rows, names)
-            ctx.obligation("valueerror-iff-infeasible", lp.feasible_formula(A, b))
+            ctx.obligation("valueerror-iff-infeasible", lp.feasibility_claims(ctx.mode, A, b)[0])
             return {"cls": "VE"}
         except Exception as e:
             ctx.expect("only-documented-exceptions", False, info=B.classify(e) + "@" + B.innermost_pacti_frame(e))
@@ -130,7 +130,7 @@ def run(ctx, job):
         r = c.optimize(job["text"], maximize=job["maximize"])
     except ValueError:
         A, b = O.matrix_of(rows, names)
-        ctx.obligation("valueerror-iff-infeasible", lp.feasible_formula(A, b))
+        ctx.obligation("valueerror-iff-infeasible", lp.feasibility_claims(ctx.mode, A, b)[0])
         return {"cls": "VE"}
     except Exception as e:
         ctx.expect("only-documented-exceptions", False, info=B.classify(e) + "@" + B.innermost_pacti_frame(e))
